@@ -15,7 +15,11 @@ JudgeAr(rec) ==
           <<IterationExact(rec.steps, ms), "member metadata, bytes or offsets differ from the archive">>,
           <<\A k \in 1..Len(ms) : ~rec.steps[k].read_err /\ ~rec.steps[k].seek_err, "member reader failed">>,
           <<Len(rec.late) = Len(ms) /\ \A k \in 1..Len(ms) : rec.late[k] = ms[k].data,
-            "reader of an earlier member is not valid after the iterator advanced">> >>)
+            "reader of an earlier member is not valid after the iterator advanced">>,
+          <<Len(rec.late_meta) = Len(ms) /\ \A k \in 1..Len(ms) :
+                rec.late_meta[k].name = ms[k].name /\ rec.late_meta[k].mode = (IF ms[k].blank THEN <<>> ELSE ms[k].mode) /\
+                NumIsNat(rec.late_meta[k].size, Len(ms[k].data)),
+            "metadata of an earlier member changed after the iterator advanced">> >>)
 
 JudgeArBig(rec) ==
     LET ms == rec.in.members
